@@ -233,8 +233,25 @@ class FactoryOracle:
                 if cb is not None:
                     cb(self_)
             P.__init__ = pinit
+            orig_sc = B.set_creation
+            orig_une = B.update_node_event
+
+            def set_creation(self_, source_id, env_):
+                orig_sc(self_, source_id, env_)
+                cb = getattr(B, "_fsmon_stamp", None)
+                if cb is not None:
+                    cb(self_, "creation", self_.timestamp_creation)
+
+            def update_node_event(self_, node_id, env_, event_type="entry"):
+                orig_une(self_, node_id, env_, event_type)
+                cb = getattr(B, "_fsmon_stamp", None)
+                if cb is not None:
+                    cb(self_, event_type, self_.timestamp_node_entry if event_type == "entry" else self_.timestamp_node_exit)
+            B.set_creation = set_creation
+            B.update_node_event = update_node_event
         B._fsmon_cb = self.on_create
         B._fsmon_pcb = self.on_create_pallet
+        B._fsmon_stamp = self.on_stamp
 
     def owner(self):
         p = self.env.active_process
@@ -259,6 +276,23 @@ class FactoryOracle:
                                    {"source": L.id, "held": L.cur_src_item.iid, "new": item.id})
             L.cur_src_item = st
         self.mon.counters["items_created"] += 1
+
+    def on_stamp(self, item, kind, value):
+        """C18: every timestamp written to an item is the current time and never smaller than an earlier one"""
+        st = self.items.get(id(item))
+        if st is None:
+            return
+        now = self.env.now
+        self.mon.counters["c18_timestamps_checked"] += 1
+        if value is None or abs(value - now) > tol(now):
+            self.mon.violation("C18", "timestamp_not_now", f"item:{kind}-timestamp-differs-from-the-current-time",
+                               {"item": st.iid, "kind": kind, "stamp": value, "now": now})
+        if st.last_stamp is not None and value is not None and value < st.last_stamp - tol(now):
+            self.mon.violation("C18", "timestamp_decreased", "item:timestamp-smaller-than-an-earlier-one",
+                               {"item": st.iid, "kind": kind, "stamp": value, "previous": st.last_stamp})
+        if value is not None:
+            st.last_stamp = value
+        st.stamps.append((kind, value))
 
     def on_create_pallet(self, pallet):
         ol = ObsList(pallet.items)
